@@ -279,6 +279,8 @@ lane_ops!(
 #[derive(Clone, Debug, PartialEq, Eq, Hash, Serialize, Deserialize, PartialOrd, Ord)]
 pub enum Ins {
     Unreachable,
+    /// `throw $tag` (only generated for executed programs, never caught)
+    Throw(u32),
     Nop,
     Drop,
     Select,
@@ -329,6 +331,7 @@ impl Ins {
         use wasm_encoder::Instruction as E;
         match self {
             Ins::Unreachable => E::Unreachable,
+            Ins::Throw(t) => E::Throw(*t),
             Ins::Nop => E::Nop,
             Ins::Drop => E::Drop,
             Ins::Select => E::Select,
@@ -403,6 +406,7 @@ impl Ins {
         let unk = || Ins::Unknown(format!("{:?}", op));
         match op {
             Operator::Unreachable => Ins::Unreachable,
+            Operator::Throw { tag_index } => Ins::Throw(*tag_index),
             Operator::Nop => Ins::Nop,
             Operator::Drop => Ins::Drop,
             Operator::Select => Ins::Select,
